@@ -393,8 +393,13 @@ def run(tier, seed):
     res = Result("C10", tier, seed)
     work = Work("C10")
     try:
-        ok, blog = coq_build(["props/C10.vo", "corr/C10corr.vo", "corr/C10health.vo"])
+        ok, blog = coq_build(["props/C10.vo", "props/C10health.vo", "corr/C10corr.vo", "corr/C10health.vo"])
         proofs_ok, pa = proof_obligations(work, res, "C10.v", ok, blog)
+        ob10 = dict(res.coverage)
+        ok_h, pa_h = proof_obligations(work, res, "C10health.v", ok, blog)
+        proofs_ok = proofs_ok and ok_h
+        res.coverage.update({"obligations": ob10["obligations"] + res.coverage["obligations"], "discharged": ob10["discharged"] + res.coverage["discharged"],
+                             "theorems": ob10["theorems"] + res.coverage["theorems"], "trusted_base": ob10["trusted_base"] + ["props/C10health.v: " + res.coverage["trusted_base"][1]]})
         cases = gen_cases(seed, tier)
         write_jsonl(work.path("cases.jsonl"), [{k: v for k, v in c.items() if not k.startswith("_")} for c in cases])
         rc, out = go_test(work, ["common_test.go", "c10_test.go"], "^TestVerifC10$",
